@@ -577,6 +577,7 @@ fn run_case(c: &[u64]) -> Option<Vec<u64>> {
         6 => run_mode6(c),
         7 => run_mode7(c),
         8 => sub_e2e::run(c),
+        9 => run_mode9(c),
         _ => None,
     }
 }
@@ -997,6 +998,254 @@ fn run_mode7(c: &[u64]) -> Option<Vec<u64>> {
     let state = neg.verif_state() as u64;
     dump(&mut out, state);
     Some(out)
+}
+
+// ------------------------------------------------------------------ mode 9: differential
+// against the REFERENCE implementation, rust-libp2p's `multistream-select` 0.13.0, over the same
+// scripted duplex. Each end is one of
+//   0 litep2p's select future (dialer_select_proto / listener_select_proto),
+//   1 the reference's select future,
+//   2 / 3 the TCP / WebSocket transport's `negotiate_protocol` of litep2p (V1 only; the timeout
+//     wrapper is there but never fires: the clock is paused and not advanced),
+// followed by the same task as in mode 0 on the stream each returns: write the payload, close,
+// read to EOF. The reference takes names as `&str`: all names must be valid UTF-8.
+
+use multistream_select as refms;
+
+enum AnyIo {
+    Lit(Negotiated<End>),
+    Ref(refms::Negotiated<End>),
+    Raw(End),
+}
+
+impl AsyncRead for AnyIo {
+    fn poll_read(
+        self: Pin<&mut Self>,
+        cx: &mut Context<'_>,
+        out: &mut [u8],
+    ) -> Poll<io::Result<usize>> {
+        match self.get_mut() {
+            AnyIo::Lit(s) => Pin::new(s).poll_read(cx, out),
+            AnyIo::Ref(s) => Pin::new(s).poll_read(cx, out),
+            AnyIo::Raw(s) => Pin::new(s).poll_read(cx, out),
+        }
+    }
+}
+
+impl AsyncWrite for AnyIo {
+    fn poll_write(
+        self: Pin<&mut Self>,
+        cx: &mut Context<'_>,
+        data: &[u8],
+    ) -> Poll<io::Result<usize>> {
+        match self.get_mut() {
+            AnyIo::Lit(s) => Pin::new(s).poll_write(cx, data),
+            AnyIo::Ref(s) => Pin::new(s).poll_write(cx, data),
+            AnyIo::Raw(s) => Pin::new(s).poll_write(cx, data),
+        }
+    }
+    fn poll_flush(self: Pin<&mut Self>, cx: &mut Context<'_>) -> Poll<io::Result<()>> {
+        match self.get_mut() {
+            AnyIo::Lit(s) => Pin::new(s).poll_flush(cx),
+            AnyIo::Ref(s) => Pin::new(s).poll_flush(cx),
+            AnyIo::Raw(s) => Pin::new(s).poll_flush(cx),
+        }
+    }
+    fn poll_close(self: Pin<&mut Self>, cx: &mut Context<'_>) -> Poll<io::Result<()>> {
+        match self.get_mut() {
+            AnyIo::Lit(s) => Pin::new(s).poll_close(cx),
+            AnyIo::Ref(s) => Pin::new(s).poll_close(cx),
+            AnyIo::Raw(s) => Pin::new(s).poll_close(cx),
+        }
+    }
+}
+
+fn ref_code(e: &refms::NegotiationError) -> u64 {
+    match e {
+        refms::NegotiationError::Failed => 1,
+        refms::NegotiationError::ProtocolError(p) => match p {
+            refms::ProtocolError::InvalidMessage => 2,
+            refms::ProtocolError::InvalidProtocol => 3,
+            refms::ProtocolError::TooManyProtocols => 4,
+            refms::ProtocolError::IoError(e) => match e.kind() {
+                io::ErrorKind::InvalidData => 5,
+                io::ErrorKind::UnexpectedEof => 6,
+                _ => 7,
+            },
+        },
+    }
+}
+
+#[derive(Clone)]
+struct SItem(u64, String);
+impl AsRef<str> for SItem {
+    fn as_ref(&self) -> &str {
+        &self.1
+    }
+}
+
+/// the negotiation future of one end: `kind` as above
+fn any_fut(kind: u64, end: End, dialer: bool, lazy: bool, names: Vec<Vec<u8>>) -> Option<GFut<AnyIo>> {
+    match kind {
+        0 => {
+            let items: Vec<Item> =
+                names.into_iter().enumerate().map(|(i, n)| Item(i as u64, n)).collect();
+            let version = if lazy { Version::V1Lazy } else { Version::V1 };
+            Some(Box::pin(async move {
+                let r = if dialer {
+                    dialer_select_proto(end, items, version).await
+                } else {
+                    listener_select_proto(end, items).await
+                };
+                match r {
+                    Ok((item, io)) => Ok((item.0, AnyIo::Lit(io))),
+                    Err(e) => Err(neg_code(&e)),
+                }
+            }))
+        }
+        1 => {
+            let items: Vec<SItem> = names
+                .into_iter()
+                .enumerate()
+                .map(|(i, n)| String::from_utf8(n).ok().map(|s| SItem(i as u64, s)))
+                .collect::<Option<_>>()?;
+            let version = if lazy { refms::Version::V1Lazy } else { refms::Version::V1 };
+            Some(Box::pin(async move {
+                let r = if dialer {
+                    refms::dialer_select_proto(end, items, version).await
+                } else {
+                    refms::listener_select_proto(end, items).await
+                };
+                match r {
+                    Ok((item, io)) => Ok((item.0, AnyIo::Ref(io))),
+                    Err(e) => Err(ref_code(&e)),
+                }
+            }))
+        }
+        2 | 3 => {
+            if lazy && dialer {
+                return None;
+            }
+            let fut = negotiate_fut(kind - 2, end, dialer, names, 1 << 40)?;
+            Some(Box::pin(async move { fut.await.map(|(i, io)| (i, AnyIo::Raw(io))) }))
+        }
+        _ => None,
+    }
+}
+
+fn run_mode9(c: &[u64]) -> Option<Vec<u64>> {
+    let mut cur = Cur { c, i: 1 };
+    let dkind = cur.n()?;
+    let lkind = cur.n()?;
+    let lazy = cur.n()? != 0;
+    let pool = cur.pool()?;
+    let di = cur.list()?;
+    let li = cur.list()?;
+    let sched = cur.list()?;
+    let dl_r = cur.list()?;
+    let dl_w = cur.list()?;
+    let ld_r = cur.list()?;
+    let ld_w = cur.list()?;
+    let dpay = cur.bytes()?;
+    let lpay = cur.bytes()?;
+    if !cur.end() || dkind > 3 || lkind > 3 {
+        return None;
+    }
+    let ds = pick(&pool, &di)?;
+    let ls = pick(&pool, &li)?;
+    // the domain of this mode: names are text (the reference's API takes `&str`); an optimistic
+    // dialer's payload may be parsed as negotiation frames by the listener (the documented
+    // pitfall), where the reference demands text again: ASCII payloads only
+    if ds.iter().chain(ls.iter()).any(|n| std::str::from_utf8(n).is_err()) {
+        return None;
+    }
+    if lazy && (dkind >= 2 || dpay.iter().any(|b| *b >= 128)) {
+        return None;
+    }
+
+    let dl: Pipe = Rc::new(RefCell::new(PipeState {
+        rscript: dl_r.into(),
+        wscript: dl_w.into(),
+        ..Default::default()
+    }));
+    let ld: Pipe = Rc::new(RefCell::new(PipeState {
+        rscript: ld_r.into(),
+        wscript: ld_w.into(),
+        ..Default::default()
+    }));
+    let d_end = End { rx: ld.clone(), tx: dl.clone() };
+    let l_end = End { rx: dl.clone(), tx: ld.clone() };
+
+    // the transports' wrapper creates a tokio timer: run everything inside a paused runtime
+    let rt = tokio::runtime::Builder::new_current_thread()
+        .enable_time()
+        .start_paused(true)
+        .build()
+        .ok()?;
+    let clen = c.len();
+    rt.block_on(async move {
+        let mut dt = GTask::new(any_fut(dkind, d_end, true, lazy, ds)?, dpay);
+        let mut lt = GTask::new(any_fut(lkind, l_end, false, false, ls)?, lpay);
+        let waker = noop_waker();
+        let mut cx = Context::from_waker(&waker);
+        let mut sched: VecDeque<u64> = sched.into();
+        let mut next = false;
+        let mut idle = 0u64;
+        let mut fuel = 2000 + 8 * clen;
+        let status;
+        loop {
+            if fuel == 0 {
+                status = 2;
+                break;
+            }
+            fuel -= 1;
+            if dt.done() && lt.done() {
+                status = 0;
+                break;
+            }
+            if idle >= 4 {
+                status = 1;
+                break;
+            }
+            let scripted = !sched.is_empty();
+            let who = match sched.pop_front() {
+                Some(x) => x != 0,
+                None => next,
+            };
+            let sig = |dt: &GTask<AnyIo>, lt: &GTask<AnyIo>| {
+                let mut v = dl.borrow().sig().to_vec();
+                v.extend(ld.borrow().sig());
+                v.push(dt.done() as u64);
+                v.push(lt.done() as u64);
+                v
+            };
+            let before = sig(&dt, &lt);
+            if who {
+                lt.poll(&mut cx);
+            } else {
+                dt.poll(&mut cx);
+            }
+            let after = sig(&dt, &lt);
+            idle = if scripted {
+                0
+            } else if before == after {
+                idle + 1
+            } else {
+                0
+            };
+            next = !who;
+        }
+        let mut out = vec![1, status, dt.res.0, dt.res.1, lt.res.0, lt.res.1, dt.end, lt.end];
+        enc_bytes(&mut out, &dt.got);
+        enc_bytes(&mut out, &lt.got);
+        enc_bytes(&mut out, &dl.borrow().total);
+        enc_bytes(&mut out, &ld.borrow().total);
+        let left_dl: Vec<u8> = dl.borrow().buf.iter().copied().collect();
+        let left_ld: Vec<u8> = ld.borrow().buf.iter().copied().collect();
+        enc_bytes(&mut out, &left_dl);
+        enc_bytes(&mut out, &left_ld);
+        Some(out)
+    })
 }
 
 // ------------------------------------------------------------------ generators
@@ -1469,6 +1718,80 @@ fn gen_mode7(rng: &mut Rng) -> Vec<u64> {
     c
 }
 
+/// which implementation runs which end in mode 9: mostly the reference against litep2p (both
+/// ways), the reference against itself as a control, sometimes the transports' negotiate path
+fn gen_kinds9(rng: &mut Rng) -> (u64, u64) {
+    match rng.below(20) {
+        0..=6 => (1, 0),
+        7..=13 => (0, 1),
+        14 | 15 => (1, 1),
+        16 => (1, 2),
+        17 => (1, 3),
+        18 => (2, 1),
+        _ => (3, 1),
+    }
+}
+
+const TEXT_NAMES: &[&[u8]] = &[
+    "/\u{e9}t\u{e9}/1".as_bytes(),
+    "/\u{43f}\u{440}\u{43e}\u{442}\u{43e}/2".as_bytes(),
+    "/\u{1f980}".as_bytes(),
+    b"/a//b/",
+    b"/ipfs/id/1.0.0",
+    b"/ipfs/id/push/1.0.0",
+];
+
+/// mode 9: as mode 0, over names that are text; lists with a common name somewhere, disjoint
+/// lists, nested names, long and maximum-length names
+fn gen_mode9(rng: &mut Rng, thorough: bool) -> Vec<u64> {
+    let (dkind, lkind) = gen_kinds9(rng);
+    let lazy = dkind < 2 && rng.chance(25);
+    let allow_long = rng.chance(if thorough { 12 } else { 8 });
+    let mut pool = catalog(rng, allow_long, false);
+    for n in pool.iter_mut() {
+        if std::str::from_utf8(n).is_err() || rng.chance(12) {
+            *n = rng.pick(TEXT_NAMES).to_vec();
+        }
+    }
+    let mut c = vec![9, dkind, lkind, lazy as u64];
+    push_pool(&mut c, &pool);
+    let nd = if lazy && rng.chance(60) { 1 } else { rng.below(7) };
+    let nl = rng.below(7);
+    let di: Vec<u64> = (0..nd).map(|_| rng.below(pool.len() as u64)).collect();
+    let li: Vec<u64> = (0..nl).map(|_| rng.below(pool.len() as u64)).collect();
+    push_list(&mut c, &di);
+    push_list(&mut c, &li);
+    let ns = rng.below(40);
+    let sched: Vec<u64> = (0..ns).map(|_| rng.below(2)).collect();
+    push_list(&mut c, &sched);
+    for _ in 0..4 {
+        c.extend(script(rng, 30));
+    }
+    let mut dp = gen_payload(rng, &pool);
+    let lp = gen_payload(rng, &pool);
+    if lazy {
+        for b in dp.iter_mut() {
+            *b &= 0x7f;
+        }
+    }
+    push_bytes(&mut c, &dp);
+    push_bytes(&mut c, &lp);
+    c
+}
+
+/// the exhaustive small scope of mode 0 with the reference at one end or at both
+fn small_scope9(maxlen: usize, nchunk: usize) -> Vec<Vec<u64>> {
+    let mut out = vec![];
+    for (dk, lk) in [(1u64, 0u64), (0, 1), (1, 1)] {
+        for c in small_scope(maxlen, nchunk) {
+            let mut d = vec![9, dk, lk];
+            d.extend_from_slice(&c[1..]);
+            out.push(d);
+        }
+    }
+    out
+}
+
 fn exec(c: &[u64]) -> Vec<u64> {
     catch_unwind(AssertUnwindSafe(|| run_case(c)))
         .unwrap_or(Some(vec![PANIC_MARK]))
@@ -1497,6 +1820,9 @@ pub fn main(args: &Args) {
     for c in small_scope(if thorough { 3 } else { 2 }, if thorough { 4 } else { 2 }) {
         out.emit(&c, &exec(&c));
     }
+    for c in small_scope9(2, if thorough { 4 } else { 2 }) {
+        out.emit(&c, &exec(&c));
+    }
     for i in 0..ncases {
         let mut r = rng.fork();
         // a request between two real nodes (loopback TCP / WebSocket): a few per run
@@ -1514,6 +1840,14 @@ pub fn main(args: &Args) {
             6 | 14 | 16 => gen_mode7(&mut r),
             _ => gen_mode0(&mut r, thorough),
         };
+        out.emit(&c, &exec(&c));
+    }
+    // the differential stream against the reference implementation: a fraction of the cases,
+    // from its own generator so that the other modes' cases do not move
+    let mut rng9 = Rng::new(seed ^ 0x9e37_79b9);
+    for _ in 0..ncases / 8 {
+        let mut r = rng9.fork();
+        let c = gen_mode9(&mut r, thorough);
         out.emit(&c, &exec(&c));
     }
 }
